@@ -143,6 +143,9 @@ func init() {
 				elem := prog.IdentObj(info, rs.Value)
 				// source is the slice returned by the read function
 				src := resolveLocal(info, pe.Decl.Body, rs.X)
+				if oc, idx := valueOrigin(info, rs.X, 0); oc != nil && idx == 0 {
+					src = oc // (through an extracted helper that calls the read function and returns its batch)
+				}
 				if call, ok := ast.Unparen(src).(*ast.CallExpr); !ok || len(call.Args) != 0 {
 					r.Fail(pe.Name()+":loop-source", rs.Pos(), nil, "the per-record loop does not range over the batch returned by the read function")
 				}
